@@ -127,6 +127,34 @@ def pred(bev, n):
         if a[0] == "f" and b[0] == "c":
             # (inner & A) ^ X  ==/!=  c    <=>   (inner & A) ^ (X ^ c)  ==/!=  0
             return [("nz" if n[2] == "Ne" else "z", a[1], a[2] ^ b[1])]
+    if t == "bin" and n[2] in ("Gt", "Lt"):
+        # unsigned `e > 0` / `0 < e` is `e != 0`
+        a, b = (n[4], n[5]) if n[2] == "Gt" else (n[5], n[4])
+        if H.lit_int(H.strip(b)) == 0 and not str(n[3]).startswith("i"):
+            va = bev.ev(a)
+            if va[0] == "f":
+                return [("nz", va[1], va[2])]
+    if t == "un" and n[2] == "Not":
+        inner = pred(bev, n[4])
+        if len(inner) == 1:
+            k, A, X = inner[0]
+            return [("z" if k == "nz" else "nz", A, X)]
+    if t == "block" and not n[1] and n[2] is not None:
+        return pred(bev, n[2])
+    if t == "mcall" and not H.mcall(n)["args"] and H.local_name(H.strip_refs(H.mcall(n)["recv"])) in bev.self_names:
+        # a query of the same type used inside another (`self.is_empty() || ..`): its own body decides
+        mc = H.mcall(n)
+        lp = mc["path"]
+        if lp.startswith("crate::") or lp.startswith("<"):
+            from ..world import split_gpath
+            fn = bev.g.f(bev.crate).fn(lp)
+            depth = getattr(bev, "_depth", 0)
+            if fn is not None and fn.get("hir") is not None and depth < 4 and "bool" == (fn.get("output") or ""):
+                bev._depth = depth + 1
+                try:
+                    return pred(bev, fn["hir"])
+                finally:
+                    bev._depth = depth
     raise Unk(f"unrecognised predicate {H.short(n)}")
 
 
